@@ -265,6 +265,29 @@ def const_eval(node: ast.AST, env: Optional[Dict[str, object]] = None):
             raise
         except Exception as e:
             raise NotConst(str(e))
+    if isinstance(node, ast.BoolOp):
+        if isinstance(node.op, ast.And):
+            v = True
+            for e in node.values:
+                v = const_eval(e, env)
+                if not v:
+                    return v
+            return v
+        v = False
+        for e in node.values:
+            v = const_eval(e, env)
+            if v:
+                return v
+        return v
+    if isinstance(node, ast.IfExp):
+        return const_eval(node.body, env) if const_eval(node.test, env) else const_eval(node.orelse, env)
+    if isinstance(node, ast.Compare) and len(node.ops) > 1:
+        left = node.left
+        for op, right in zip(node.ops, node.comparators):
+            if not const_eval(ast.Compare(left=left, ops=[op], comparators=[right]), env):
+                return False
+            left = right
+        return True
     if isinstance(node, ast.Compare) and len(node.ops) == 1:
         a, b = const_eval(node.left, env), const_eval(node.comparators[0], env)
         t = type(node.ops[0])
